@@ -29,6 +29,26 @@ CHECKS = {
         "tool-specific codes and RFC 9052 choice points listed in the evidence",
         "DESIGN.md section 5 / C02",
     ),
+    "C01": (
+        "exploration",
+        "Hypothesis grammar-generated envelope descriptions + exhaustive algorithm x member x mode x boundary product; digests recomputed with hashlib over byte spans found by an independent CBOR walker",
+        "Generated descriptions cover every combination of severable members and modes, all five algorithms per field, description "
+        "digests that disagree with the content, manifests padded to land exactly on each bstr header-width boundary and nested "
+        "dependency envelopes; the oracle re-hashes the exact wrapped bytes of envelope members 3 and 15/16/17/18/20/23 at every "
+        "nesting level and compares with the recorded digests and declared algorithms. Sampled, plus a complete 510-case product.",
+        "trusts vf/cborlite.py and hashlib; library path for all cases, CLI-level JSON/YAML file path for a sample",
+        "DESIGN.md section 5 / C01",
+    ),
+    "C08": (
+        "exploration",
+        "complete enumeration of the vocabulary in both directions and of every name x foreign key space, against registry tables transcribed from IANA/drafts",
+        "Exhaustive over the finite vocabulary (113 name/code pairs in 15 key spaces): encode direction reads the integer from created "
+        "bytes, decode direction parses verifier-encoded bytes and reads the shown name, every name is offered to every other closed "
+        "key space (must be rejected with any accompanying value), tags 107/18/96 are read from created bytes and off-by-one tags "
+        "offered to parse.",
+        "trusts vf/registry.py (transcription of the registries; five tool-specific codes marked) and vf/refenc.py for the decode direction",
+        "DESIGN.md section 5 / C08",
+    ),
 }
 
 NOT_YET = "check under construction in this session; not claimed until its quick command is registered here"
